@@ -32,6 +32,7 @@ Fixpoint obs_eqb (a b : obs) {struct a} : bool :=
   end.
 
 Definition onat (n : nat) : obs := OZ (Z.of_nat n).
+Definition olz (l : list Z) : obs := OL (map OZ l).          (* compact literal for long integer lists *)
 Definition olist {A} (f : A -> obs) (l : list A) : obs := OL (map f l).
 Definition oopt {A} (f : A -> obs) (o : option A) : obs :=
   match o with Some x => f x | None => ON end.
